@@ -1206,3 +1206,23 @@ def _empty_content_shape(repo, ob, failure):
 
 
 GENERATORS.insert(0, ("C11.container.empty_content", _empty_content_shape))
+
+
+def _defaults_vs_shorthand(repo, ob, failure):
+    """<defaults> never override a value the element gives through a shorthand"""
+    import re as _re
+    doc = ('<svg><defaults><rect width="5" height="5"/><line x1="0" y1="0"/></defaults><rect id="short" xy="1" wh="8 2"/><rect id="long" xy="1" width="8" height="2"/>'
+           '<line id="lshort" xy1="1 2" xy2="3 4"/></svg>')
+    r = run_svgdx(repo, doc)
+    if r["rc"] != 0:
+        return None
+    body = r["out"].split("</style>")[-1]
+    for want in (r'<rect id="short" x="1" y="1" width="8" height="2"', r'<line id="lshort" x1="1" y1="2" x2="3" y2="4"'):
+        if not _re.search(want, body):
+            i = want.split('"')[1]
+            m = _re.search(r'<\w+ id="%s"[^>]*>' % i, body)
+            return {"input": doc, "observed": "written as %s" % (m.group(0) if m else "?"), "expected": "/%s/ (as its longhand spelling)" % want}
+    return None
+
+
+GENERATORS.insert(0, ("C11.defaults.", _defaults_vs_shorthand))
